@@ -333,7 +333,8 @@ PROPS = {
         "technique": "MIR must-pass-through / dominance rules over access paths, who-may-write",
     },
     "C17": {
-        "rules": [r_rewrite.run, kind_scope("trainer::config", "trainer::Trainer::extract_feature_set")],
+        "rules": [r_rewrite.run, kind_scope("trainer::config", "trainer::Trainer::extract_feature_set"),
+                  r_codec.run_c18],
         "explanation": "FIRSTMATCH-BUILD: FeatureRewriterBuilder::add_rule moves along an existing "
                        "trie edge only when that edge is the newest action of its node (or never), "
                        "and appends new actions: the rules below every edge are then a contiguous "
